@@ -234,6 +234,44 @@ def sample_triangle(rng, N, with_arrays=True, arr1=True):
     return Triangle(out), fields, fk
 
 
+# ---- derived accessors: what the object says vs what its cells say ---------------------------------
+
+def recomputed(cells):
+    sizes = {int(v.size) for c in cells for v in c.values.values() if isinstance(v, np.ndarray) and v.size > 1}
+    return {"num_samples": 1 if not sizes else (sizes.pop() if len(sizes) == 1 else "ValueError"),
+            "fields": sorted({k for c in cells for k in c.values}),
+            "slices": len({c.metadata for c in cells}),
+            "periods": len({c.period for c in cells}),
+            "evaluation_dates": len({c.evaluation_date for c in cells}),
+            "len": len(cells)}
+
+
+def accessors(tri):
+    st, ns = call(lambda: tri.num_samples)
+    return {"num_samples": int(ns) if st == "ok" else ns, "fields": list(tri.fields), "slices": len(tri.slices),
+            "periods": len(tri.periods), "evaluation_dates": len(tri.evaluation_dates), "len": len(tri)}
+
+
+def check_accessors(ctx, tri, what, shown):
+    """cached / derived accessors of an OUTPUT must describe the output's own cells"""
+    a, r = accessors(tri), recomputed(tri.cells)
+    ctx.count("sequence/accessors-checked")
+    if a != r:
+        ctx.fail(f"{what}: num_samples / fields / slices / periods of the result disagree with its own cells",
+                 shown, {"accessors": a, "recomputed_from_cells": r})
+
+
+def zero_new_arrays(src_cells, out_cells, only_fields=None):
+    """mutate the RESULT in place (arrays the operation created: source array had more than one sample, or the
+    field was selected) — a later call on the same input must not be affected"""
+    for c, o in zip(src_cells, out_cells):
+        for f, v in o.values.items():
+            sv = c.values.get(f)
+            if isinstance(v, np.ndarray) and v is not sv and isinstance(sv, np.ndarray) and sv.size > 1 \
+                    and (only_fields is None or f in only_fields) and v.flags.writeable:
+                v *= 0
+
+
 # ---- the check ----------------------------------------------------------------------------------
 
 def correspondence(ctx):
@@ -348,18 +386,15 @@ def correspondence(ctx):
                      "P": P, "impl": d.get("ok")})
         post.append(("bootstrap", shown, d))
 
-    # (iii) thin ----------------------------------------------------------------------------------------
-    n_thin = 3000 if ctx.thorough else 220
-    for ci in range(n_thin):
-        with_arrays = rng.random() < 0.9
-        N = rng.randrange(2, 9)
-        t, fields, fk = sample_triangle(rng, N, with_arrays)
-        ns = N if any(isinstance(v, np.ndarray) and v.size > 1 for c in t for v in c.values.values()) else 1
-        k = rng.choice([ns, ns, ns + 1, ns + 3, 0, 1] + list(range(0, ns + 1)))
-        seed = rng.choice([None, 0, 5, rng.randrange(1 << 31)])
-        via = rng.random() < 0.4
+    # (iii) thin, incl. SEQUENCES: thin(thin(t)), moment_match then thin -----------------------------------
+    def thin_case(t, k, seed, via, tag, sample=False, default_seed=False):
+        ns = recomputed(t.cells)["num_samples"]
+        before = accessors(t)                           # the input's cached accessors are read beforehand
         with RngRecorder() as rec:
-            res = call((lambda: t.thin(k, seed)) if via else (lambda: thin(t, k, seed)))
+            if default_seed:
+                res = call((lambda: t.thin(k)) if via else (lambda: thin(t, k)))
+            else:
+                res = call((lambda: t.thin(k, seed)) if via else (lambda: thin(t, k, seed)))
         st, out = res
         same_obj = st == "ok" and out is t
         d = {"err": out} if st == "err" else {"ok": "same" if same_obj else w_cells(out.cells)}
@@ -367,23 +402,56 @@ def correspondence(ctx):
         if rec.gens and rec.gens[0].log:
             idx = [int(x) for x in rec.gens[0].log[0][1]]
         wire_t = w_cells(t.cells)
-        shown = {"t": wire_t, "k": k, "seed": seed}
+        shown = {"t": wire_t, "k": k, "seed": seed, "sequence": tag}
         rel = "eq" if k == ns else "gt" if k > ns else "lt"
         ctx.count(f"thin/k{rel}n")
         ctx.count(f"thin/num_samples={ns}")
+        ctx.count(f"thin/stage={tag}")
         ctx.count("thin/" + ("same-object" if same_obj else "ok" if st == "ok" else out))
-        ctx.case(digest=json.dumps([canon(wire_t), k], sort_keys=True), nontrivial=ns > 1,
-                 sample={"op": "thin", "cells": len(t), "num_samples": ns, "k": k} if ci < 2 else None)
+        ctx.case(digest=json.dumps([canon(wire_t), k, tag], sort_keys=True), nontrivial=ns > 1,
+                 sample={"op": "thin", "cells": len(t), "num_samples": ns, "k": k} if sample else None)
         if k == ns and not same_obj:
             ctx.fail("thin with k equal to the sample count must return the triangle itself", shown, {"impl": d})
         if k > ns and st == "ok":
             ctx.fail("thin with k larger than the sample count must be refused", shown, {"impl": d})
-        if st == "ok" and not same_obj and seed is not None:
-            st2, out2 = call(thin, t, k, seed)
-            if st2 != "ok" or w_cells(out2.cells) != d["ok"]:
-                ctx.fail("thin: same seed, different output", shown, {"first": d})
+        if accessors(t) != before:
+            ctx.fail("thin changed the derived accessors of its INPUT", shown)
+        if st == "ok" and not same_obj:
+            check_accessors(ctx, out, "thin", shown)
+            if seed is not None and not default_seed:
+                zero_new_arrays(t.cells, out.cells)      # ruin the first result in place, then call again
+                st2, out2 = call(thin, t, k, seed)
+                if st2 != "ok" or w_cells(out2.cells) != d["ok"]:
+                    ctx.fail("thin: same seed, different output on the second call", shown, {"first": d})
+                out = out2
         reqs.append({"op": "thin", "t": wire_t, "k": k, "idx": idx, "impl": d.get("ok") if ns > 1 else None})
         post.append(("thin", shown, d))
+        return st, out, same_obj
+
+    n_thin = 3000 if ctx.thorough else 220
+    for ci in range(n_thin):
+        with_arrays = rng.random() < 0.9
+        N = rng.randrange(2, 9)
+        t, fields, fk = sample_triangle(rng, N, with_arrays, arr1=rng.random() < 0.7)
+        tag = "single"
+        if with_arrays and rng.random() < 0.25 and not any(k == "arr1" for k in fk.values()):
+            # moment_match first: thin must work on (and count the samples of) a derived triangle
+            names = [f for f in fields if fk[f] in ("farr", "iarr", "mixed")]
+            np.random.seed(rng.randrange(1 << 31))
+            stm, tm = call(moment_match, t, names, "normal")
+            if stm == "ok":
+                check_accessors(ctx, tm, "moment_match", {"t": w_cells(t.cells), "field_names": names})
+                t, tag = tm, "after-moment_match"
+        ns = recomputed(t.cells)["num_samples"]
+        k = rng.choice([ns, ns, ns + 1, ns + 3, 0, 1] + list(range(0, ns + 1)))
+        seed = rng.choice([None, 0, 5, rng.randrange(1 << 31)])
+        st, a, same_obj = thin_case(t, k, seed, rng.random() < 0.4, tag, sample=ci < 2,
+                                    default_seed=rng.random() < 0.15)
+        if st == "ok" and not same_obj and rng.random() < 0.6:
+            # thin the RESULT again: at, above and below ITS sample count
+            k1 = recomputed(a.cells)["num_samples"]
+            for k2 in {k1, k1 + 1, rng.randrange(0, k1 + 1)}:
+                thin_case(a, k2, rng.randrange(1 << 31), rng.random() < 0.4, "thin-of-thin")
 
     # (iv) moment_match -----------------------------------------------------------------------------------
     n_mm = 2500 if ctx.thorough else 200
